@@ -24,6 +24,8 @@ AVCTP packet:
 """
 from __future__ import annotations
 
+import copy
+
 SINGLE, START, CONTINUE, END = 0, 1, 2, 3
 PT_NAME = {SINGLE: 'single', START: 'start', CONTINUE: 'continue', END: 'end'}
 
@@ -487,7 +489,8 @@ def bfs(proto: str, msgs, depth: int, max_states: int | None = None):
             snap_refs = [r.cur for r in refs]
             for ti, (tok, pdu) in enumerate(alpha):
                 vars(real.asm).clear()
-                vars(real.asm).update(snap_real)
+                # mutable attribute values (a list of fragments, a bytearray) are copied for every branch
+                vars(real.asm).update({k: (copy.deepcopy(v) if isinstance(v, (list, bytearray, dict, set)) else v) for k, v in snap_real.items()})
                 for r, c in zip(refs, snap_refs):
                     r.cur = c
                 before = real.canon()
